@@ -6,6 +6,7 @@ sets `Fin nf`, `Fin nc`.
 -/
 import DarsiaModel.Saddle
 import DarsiaModel.FV
+import Mathlib.Tactic.Linarith
 import DarsiaProofs.Saddle
 import DarsiaProofs.Sums
 import Mathlib.Algebra.BigOperators.Fin
@@ -730,5 +731,89 @@ theorem fvDiv_size (shape : List Nat) (h : List Rat) : (fvDiv shape h).size = nu
 theorem fvDiv_get (shape : List Nat) (h : List Rat) (c e : Nat) (hc : c < numCells shape) (he : e < numFaces shape) :
     (fvDiv shape h).get c e = divEntry shape h c e := by
   unfold fvDiv; rw [get_tab, if_pos ⟨hc, he⟩]
+
+/-! ### the mass-balance row is the same in every iterate (C04: `hupd`) -/
+
+/-- `jacobian(solution)`, `_update_regularization(flux)` and `darcy_init` assemble the same block matrix with different
+flux-flux blocks only: every entry outside the flux-flux block is independent of the weights -/
+theorem assemble_offdiag_independent (w w' : Vec) (hw : w'.size = w.size) (D : Mat) (k : Nat) (i j : Nat)
+    (hij : w.size ≤ i ∨ w.size ≤ j) : fullEntry w' D k i j = fullEntry w D k i j := by
+  unfold fullEntry
+  rw [hw]
+  rcases hij with h | h
+  · have h1 : ¬ i < w.size := by omega
+    simp only [h1, if_false]
+  · have h2 : ¬ j < w.size := by omega
+    by_cases h1 : i < w.size
+    · simp only [h1, h2, if_true, if_false]
+    · simp only [h1, if_false]
+
+/-- the mass-balance row `nf + c` of the assembled matrix applied to `[u | p | lam]` is `D u − cᵀ lam`, whatever the
+weights: it is the SAME matrix row in every Newton / Bregman iterate -/
+theorem mass_row_same (w w' : Vec) (hw : w'.size = w.size) (D : Mat) (k : Nat) (u p : Nat → ℚ) (lam : ℚ) (c : Nat)
+    (hc : c < D.size) :
+    (mulVec (assembleFull w' D k) (tabV (w'.size + D.size + 1) (cat3 w'.size D.size u p lam))).getD (w'.size + c) 0
+      = (mulVec (assembleFull w D k) (tabV (w.size + D.size + 1) (cat3 w.size D.size u p lam))).getD (w.size + c) 0 := by
+  rw [full_row_mass w' D k u p lam c hc, full_row_mass w D k u p lam c hc, hw]
+
+/-- **the hypothesis `hupd` of `newton_preserves_balance`, discharged from the model** (row form): if the update
+`[du | dp | dlam]` solves the model's Newton system `J(w') δ = rhs − J(w') x` (`residual` as coded: right-hand side minus
+the assembled operator applied to the iterate; `w'` = the face weights of this iterate, arbitrary), then its mass-balance
+rows read `D du − cᵀ dlam = f − (D u − cᵀ lam)` -/
+theorem newton_update_rows (w' : Vec) (D : Mat) (k : Nat) (u p du dp g f : Nat → ℚ) (lam dlam r : ℚ)
+    (h : mulVec (assembleFull w' D k) (tabV (w'.size + D.size + 1) (cat3 w'.size D.size du dp dlam))
+        = tabV (w'.size + D.size + 1) (fun i =>
+            cat3 w'.size D.size g f r i -
+              (mulVec (assembleFull w' D k) (tabV (w'.size + D.size + 1) (cat3 w'.size D.size u p lam))).getD i 0)) :
+    ∀ c, c < D.size →
+      sumTo w'.size (fun e => D.get c e * du e) - (if c = k then dlam else 0)
+        = f c - (sumTo w'.size (fun e => D.get c e * u e) - (if c = k then lam else 0)) := by
+  intro c hc
+  have hrow := congrArg (fun v => v.getD (w'.size + c) 0) h
+  beta_reduce at hrow
+  rw [getD_tabV, if_pos (show w'.size + c < w'.size + D.size + 1 by omega),
+    full_row_mass w' D k du dp dlam c hc, full_row_mass w' D k u p lam c hc,
+    (cat3_getD w'.size D.size g f r).2.1 c hc] at hrow
+  exact hrow
+
+/-- the same in the abstract vocabulary of `Saddle.newton_preserves_balance` -/
+theorem newton_update_hupd (w' : Vec) (D : Mat) (k : Nat) (hk : k < D.size) (u p du dp g f : Nat → ℚ) (lam dlam r : ℚ)
+    (h : mulVec (assembleFull w' D k) (tabV (w'.size + D.size + 1) (cat3 w'.size D.size du dp dlam))
+        = tabV (w'.size + D.size + 1) (fun i =>
+            cat3 w'.size D.size g f r i -
+              (mulVec (assembleFull w' D k) (tabV (w'.size + D.size + 1) (cat3 w'.size D.size u p lam))).getD i 0)) :
+    ∀ c : Fin D.size,
+      Saddle.div (DF w' D) (fun e => du e.val) c - Saddle.ind ⟨k, hk⟩ c dlam
+        = f c.val - (Saddle.div (DF w' D) (fun e => u e.val) c - Saddle.ind ⟨k, hk⟩ c lam) := by
+  intro c
+  have hrow := newton_update_rows w' D k u p du dp g f lam dlam r h c.val c.isLt
+  rw [sumTo_eq_sum, sumTo_eq_sum] at hrow
+  unfold Saddle.div Saddle.ind DF
+  simp only [Fin.ext_iff]
+  exact hrow
+
+/-- … hence every iterate of the model's Newton iteration (any number of steps, arbitrary weights in every step) is
+mass-balanced: `newton_preserves_balance` with its hypothesis derived from the assembled systems -/
+theorem newton_model_preserves_balance (D : Mat) (k : Nat) (nf : Nat) (ws : Nat → Vec)
+    (hws : ∀ n, (ws n).size = nf) (g f : Nat → ℚ) (r : ℚ) (u du p dp : Nat → Nat → ℚ) (lam dlam : Nat → ℚ)
+    (hu : ∀ n e, u (n + 1) e = u n e + du n e) (hl : ∀ n, lam (n + 1) = lam n + dlam n)
+    (hstep : ∀ n, mulVec (assembleFull (ws n) D k) (tabV (nf + D.size + 1) (cat3 nf D.size (du n) (dp n) (dlam n)))
+        = tabV (nf + D.size + 1) (fun i => cat3 nf D.size g f r i -
+            (mulVec (assembleFull (ws n) D k) (tabV (nf + D.size + 1) (cat3 nf D.size (u n) (p n) (lam n)))).getD i 0)) :
+    ∀ n c, c < D.size →
+      sumTo nf (fun e => D.get c e * u (n + 1) e) - (if c = k then lam (n + 1) else 0) = f c := by
+  intro n c hc
+  have h := hstep n
+  have hsz := hws n
+  rw [← hsz] at h
+  have hup := newton_update_rows (ws n) D k (u n) (p n) (du n) (dp n) g f (lam n) (dlam n) r h c hc
+  rw [hsz] at hup
+  rw [hl n, sumTo_congr (g := fun e => D.get c e * u n e + D.get c e * du n e)
+    (fun e _ => by rw [hu n e]; ring), sumTo_add]
+  by_cases hck : c = k
+  · simp only [hck, if_true] at hup ⊢
+    linarith
+  · simp only [hck, if_false] at hup ⊢
+    linarith
 
 end Darsia.SaddleBridge
